@@ -57,7 +57,7 @@ case "${1:-}" in
     if [ "${2:-quick}" = "thorough" ] && [ $rc -ne 2 ]; then
       # auxiliary arm, thorough tier only, clearly not simulation: real goroutines under the race detector
       build_race
-      "$VERIF/.build/grulesim-race" racearm "${VERIF_RACE_SCENARIOS:-3000}"; rc2=$?
+      "$VERIF/.build/grulesim-race" racearm "${VERIF_RACE_SCENARIOS:-20000}"; rc2=$?
       [ $rc2 -gt $rc ] && rc=$rc2
     fi
     exit $rc ;;
